@@ -116,7 +116,12 @@ func (r *Replica) Block(events []Event) (BlockOut, error) {
 	if r.App.LastBlockHeight() == 0 && r.Initial > 1 {
 		h = r.Initial
 	}
-	hdr := tmproto.Header{ChainID: ChainID, Height: h, AppHash: r.LastApp, Time: time.Unix(1700000000+h*5, 0).UTC()}
+	// The header's AppHash is an INPUT of the block (x/node draws its selection seed from it). It is made a function of
+	// the height alone, so that a chain re-started from an exported genesis (whose real application hash necessarily
+	// differs) is fed the same seeds as the chain it was exported from; the REAL application hash is what Commit returns
+	// and what replicas are compared on.
+	seedHash := sha256.Sum256([]byte(fmt.Sprintf("header-app-hash/%d", h)))
+	hdr := tmproto.Header{ChainID: ChainID, Height: h, AppHash: seedHash[:], Time: time.Unix(1700000000+h*5, 0).UTC()}
 	out := BlockOut{Height: h, Txs: []TxOut{}}
 	var err error
 	res, pm := r.guarded(func() {
@@ -186,6 +191,16 @@ func (r *Replica) ProjectCommitted() State {
 	st := r.Project()
 	st.Seed = 0
 	return st
+}
+
+// SetNodeRound writes the super-node round-robin cursor (n < 0: leave it absent) into the state the next block starts from.
+func (r *Replica) SetNodeRound(n int64) {
+	if n < 0 {
+		return
+	}
+	h := r.App.LastBlockHeight()
+	ctx := r.App.BaseApp.NewContext(false, tmproto.Header{ChainID: ChainID, Height: h})
+	r.App.NodeKeeper.SetNodeRound(ctx, uint8(n))
 }
 
 // Export returns the exported application state (genesis JSON of all modules).
